@@ -89,6 +89,49 @@ pub fn search(r: &mut Report, tier: &str, _seed: u64) {
     r.bound = format!("all programs of <= {} steps over 2 replicas, keys {{0,1}}: update/rm with read contexts, per-actor-ordered delivery with duplicates, merges (value layer excluded: known findings)", d2);
     STOP.store(false, std::sync::atomic::Ordering::Relaxed);
     rec(vec![MM::new(), MM::new()], vec![vec![], vec![]], vec![], String::new(), d2, 1, r);
+    if r.failures == 0 { random_walks(r, if tier == "thorough" { 100000 } else { 10000 }, 12, _seed); }
+}
+
+fn lcg(s: &mut u64) -> u64 { *s = s.wrapping_mul(6364136223846793005).wrapping_add(1442695040888963407); *s >> 33 }
+
+/// random programs (3 replicas, keys {0,1,2}): longer histories than the exhaustive phase reaches, e.g. several key
+/// removes issued under ONE read context that overtake the updates they observed, and merges of replicas each holding one
+fn random_walks(r: &mut Report, n: usize, len: usize, seed: u64) {
+    r.bound.push_str(&format!("; then {} random programs of {} steps over 3 replicas, keys {{0,1,2}} (seed {})", n, len, seed));
+    let mut s = seed.wrapping_add(0x77aa55);
+    for _ in 0..n {
+        let mut reps: Vec<MM> = vec![MM::new(), MM::new(), MM::new()];
+        let mut known: Vec<Vec<Op<u8, MVReg<u8, u8>, u8>>> = vec![vec![]; 3];
+        let mut all: Vec<Op<u8, MVReg<u8, u8>, u8>> = vec![];
+        let mut desc = String::new();
+        let mut nv = 1u8;
+        for _ in 0..len {
+            let i = (lcg(&mut s) % 3) as usize;
+            let actor = (i + 1) as u8;
+            match lcg(&mut s) % 8 {
+                0 | 1 => { let k = (lcg(&mut s) % 3) as u8; let ctx = reps[i].read_ctx().derive_add_ctx(actor); let v = nv; nv = nv.wrapping_add(1); let op = reps[i].update(k, ctx, |reg, c| reg.write(v, c)); reps[i].apply(op.clone()); known[i].push(op.clone()); all.push(op); desc.push_str(&format!(" r{}:up({})", i, k)); }
+                2 => { let k = (lcg(&mut s) % 3) as u8; let op = reps[i].rm(k, reps[i].get(&k).derive_rm_ctx()); reps[i].apply(op.clone()); known[i].push(op.clone()); all.push(op); desc.push_str(&format!(" r{}:rm({})", i, k)); }
+                3 => {
+                    // 'clear what I can see': removes of two keys from ONE read context (same clock)
+                    let ops: Vec<Op<u8, MVReg<u8, u8>, u8>> = (0..2u8).map(|k| reps[i].rm(k, reps[i].read_ctx().derive_rm_ctx())).collect();
+                    for op in ops { reps[i].apply(op.clone()); known[i].push(op.clone()); all.push(op); }
+                    desc.push_str(&format!(" r{}:rm(0),rm(1)@read_ctx", i));
+                }
+                4 | 5 | 6 => {
+                    if all.is_empty() { continue; }
+                    let j = (lcg(&mut s) as usize) % all.len();
+                    if let Op::Up { dot, .. } = &all[j] { if reps[i].read_ctx().add_clock.get(&dot.actor) + 1 < dot.counter { continue; } }
+                    reps[i].apply(all[j].clone()); known[i].push(all[j].clone()); desc.push_str(&format!(" r{}<-op{}", i, j));
+                }
+                _ => { let j = (i + 1 + (lcg(&mut s) % 2) as usize) % 3; let o = reps[j].clone(); reps[i].merge(o); let kj = known[j].clone(); known[i].extend(kj); desc.push_str(&format!(" r{}<-merge(r{})", i, j)); }
+            }
+            for (q, m) in reps.iter().enumerate() {
+                let want = den_keys(&known[q]); let got = state_keys(m);
+                r.case("map.keys_den", want == got, &|| format!("{} @r{}", desc, q), &|| format!("state {:?} want {:?}", got, want));
+            }
+            if r.failures > 0 { return; }
+        }
+    }
 }
 
 pub fn standin_map_iters(r: &mut Report) {
